@@ -229,12 +229,21 @@ contract(
             "alternative_resources": ResList, "effort": Real},
     ret=ResList,
     ensures=[
-        # C03: an allocation with alternatives books exactly one of the candidate lists
-        ("one-of", "result == primary_resources or result == alternative_resources or len(result) == 0"),
+        # C03: an allocation with alternatives books exactly ONE of the candidates: the primary allocation as a whole,
+        # or a single alternative (never several alternatives together)
+        ("one-candidate", "result == primary_resources or len(result) == 0 or "
+                          "(len(result) == 1 and exists(k, 0, len(alternative_resources), result[0] == alternative_resources[k]))"),
         ("no-alternatives", "implies(len(alternative_resources) == 0 and len(primary_resources) > 0, result == primary_resources)"),
+        ("something", "implies(len(primary_resources) > 0 or len(alternative_resources) > 0, len(result) > 0)"),
     ],
     calls={"self._estimateCompletionTime": ("pure", Opt(DT))},
     static={"hasattr(self, '_selectedAlternative')": True},
+    loops={0: {"inv": [
+        ("best", "best == primary_resources or (len(best) == 1 and exists(k, 0, _i, best[0] == alternative_resources[k]))"),
+        ("taken", "implies(_i > 0 and len(primary_resources) == 0, len(best) == 1)"),
+    ], "locals": {"best": ResList, "best_end": Opt(DT), "chose_alternative": Bool, "candidate": ResList,
+                  "candidate_end": Opt(DT)}}},
+    locals={"best": ResList, "candidate": ResList},
     modifies=["TaskScenario._selectedAlternative@self"],
     note="_estimateCompletionTime is treated as a pure estimate (it reads availability only)",
 )
